@@ -17,7 +17,7 @@ import sympy as sp
 
 from .common import *  # noqa
 from .boolib import *  # noqa
-from .grlib import is_rowwise_norm
+from .grlib import is_rowwise_norm, no_wrap_possible, find_inline_image
 from ..vg import Interp
 
 CLS = "static.boo.boo_3d"
@@ -92,8 +92,8 @@ def check_qlm(run, pkg, weighted):
     okj = eqv(Lj.iter, ("call", "builtins.range", (nbr_count(NL, i),), ()))
     run.ob("R-LOOPDOM", fq, f"{v}:neighbours", okj, "the sum runs over all cn_i neighbours of particle i", show(Lj.iter)[:80],
            witness=None if okj else "neighbours skipped / padding zeros (particle 0) counted as neighbours", loc=fi.loc(Lj.node), sound=True)
-    okrow = ev.data["target"][2] == i
-    run.ob("R-IDX", fq, f"{v}:row", okrow, "contributions of particle i's bonds are added to row i", show(ev.data["target"][2]), witness=None if okrow else "stored at another particle's row", loc=loc)
+    okrow = eqv(ev.data["target"][2], i)
+    run.ob("R-IDX", fq, f"{v}:row", okrow, "contributions of particle i's bonds are added to row i", show(ev.data["target"][2]), witness=None if okrow else "stored at another particle's row", loc=loc, sound=True)
     shp = Z[2][0] if Z[0] == "call" and Z[1] == "numpy.zeros" and Z[2] else None
     oksh = tri_lazy(lambda: (True if (shp is not None) else None), lambda: (True if (shp[0] == "tuple") else None), lambda: (True if (len(shp[1]) == 2) else None), lambda: eqv(shp[1][0], ("attr", snap, "nparticle")), lambda: (True if (S.decide_equal(S.to_sympy(shp[1][1], lambda t: sp.Symbol("l") if t == LDEG else None), 2 * sp.Symbol("l") + 1)[0] is True) else None), lambda: eqv(kw(Z, "dtype"), ("mod", "numpy.complex128"), ("builtin", "complex")))
     run.ob("R-ALG", fq, f"{v}:shape", bool(oksh), "per-frame array is complex zeros of shape (nparticle, 2l+1)", show(Z)[:80], witness=None if oksh else "m = -l..l does not fit / real dtype drops phases", loc=loc, sound=True)
@@ -116,9 +116,9 @@ def check_qlm(run, pkg, weighted):
     if th is None or ph is None or not (th[0] == "sub" and ph[0] == "sub"):
         run.ob("R-ANGLE", fq, f"{v}:call", None, "harmonics called with per-bond (theta, phi)", show(call)[:100], loc=loc)
         return
-    okidx = th[2] == j and ph[2] == j
+    okidx = tri(eqv(th[2], j), eqv(ph[2], j))
     run.ob("R-ALIGN", fq, f"{v}:bond-index", okidx, "both angles belong to bond j of the neighbour loop", f"theta[{show(th[2])}], phi[{show(ph[2])}]",
-           witness=None if okidx else "polar and azimuth angles of different bonds combined", loc=loc)
+           witness=None if okidx else "polar and azimuth angles of different bonds combined", loc=loc, sound=True)
     TH, PH = th[1], ph[1]
     # locate the bond-vector term: operand of arccos / arctan2
     B = None
@@ -128,27 +128,31 @@ def check_qlm(run, pkg, weighted):
             break
     if B is None:
         raw = [x for x in walk(TH) if x[0] == "bin" and x[1] == "-" and any(y[0] == "attr" and y[2] == "positions" for y in walk(x))]
-        run.ob("R-PBC", fq, f"{v}:image", False if raw else None, "bond vectors are minimum-image vectors", show(TH)[:100],
-               witness="a bond across the periodic boundary points the wrong way: its Y_lm is that of a box-length vector" if raw else None, loc=loc)
+        # definite only when nothing in the angle's value could wrap the raw displacement
+        unwrapped = bool(raw) and no_wrap_possible(TH) and no_wrap_possible(PH)
+        run.ob("R-PBC", fq, f"{v}:image", False if unwrapped else None, "bond vectors are minimum-image vectors", show(TH)[:100],
+               witness="a bond across the periodic boundary points the wrong way: its Y_lm is that of a box-length vector" if unwrapped else None, loc=loc, sound=True)
         return
     pol = polar_angle(TH, B)
     azi = azimuth_angle(PH, B)
     swapped = polar_angle(PH, B) == "ok" and azimuth_angle(TH, B) == "ok"
     run.ob("R-ANGLE", fq, f"{v}:polar", (pol == "ok") if pol is not None else (False if swapped else None), "theta passed to sph_harm_l is the polar angle arccos(z/|r|) of the imaged bond vector",
-           show(TH)[:80] if pol in (None, "ok") else pol, witness=None if pol == "ok" else ("azimuth passed as theta and polar as phi" if swapped else pol), loc=loc)
+           show(TH)[:80] if pol in (None, "ok") else pol, witness=None if pol == "ok" else ("azimuth passed as theta and polar as phi" if swapped else pol), loc=loc, sound=True)
     run.ob("R-ANGLE", fq, f"{v}:azimuth", (azi == "ok") if azi is not None else (False if swapped else None), "phi passed to sph_harm_l is the azimuth arctan2(y, x) of the imaged bond vector",
-           show(PH)[:80] if azi in (None, "ok") else azi, witness=None if azi == "ok" else ("arguments swapped" if swapped else azi), loc=loc)
+           show(PH)[:80] if azi in (None, "ok") else azi, witness=None if azi == "ok" else ("arguments swapped" if swapped else azi), loc=loc, sound=True)
     bv = bond_vectors(B)
     if bv is None:
         run.ob("R-PBC", fq, f"{v}:bond", None, "bond vector form recognised", show(B)[:100], loc=loc)
     else:
-        okb = bv["snap"] == snap and is_nbr_slice_gather(bv["left"], NL, i) and bv["right"] == i
+        okb = tri(eqv(bv["snap"], snap), nbr_slice_tri(bv["left"], NL, i), eqv(bv["right"], i))
         rev = bv["snap"] == snap and is_nbr_slice_gather(bv["right"], NL, i) and bv["left"] == i
+        if rev:
+            okb = False
         run.ob("R-PBC", fq, f"{v}:bond", okb, "bond vectors are positions[neighbours of i] - positions[i] within the frame", f"[{show(bv['left'])[:60]}] - [{show(bv['right'])[:30]}]",
-               witness=None if okb else ("centre - neighbour: every bond reversed, odd-l harmonics change sign (w_l for odd l flips)" if rev else "bond vectors do not join i to its listed neighbours"), loc=loc)
+               witness=None if okb else ("centre - neighbour: every bond reversed, odd-l harmonics change sign (w_l for odd l flips)" if rev else "bond vectors do not join i to its listed neighbours"), loc=loc, sound=True)
         okh = eqv(bv["H"], ("attr", snap, "hmatrix"))
         run.ob("R-PBC", fq, f"{v}:cell", okh, "minimum image uses the frame's cell", show(bv["H"])[:50], witness=None if okh else "cell of another frame", loc=loc, sound=True)
-        okm = eqv(bv["ppp"], ("attr", SELF, "ppp"))
+        okm = eqv(bv["ppp"], ("attr", SELF, "ppp")) if bv["ppp"] is not None else False
         run.ob("R-PBC", fq, f"{v}:mask", okm, "the instance's periodicity mask is forwarded", show(bv["ppp"])[:40] if bv["ppp"] else "default", witness=None if okm else "mask dropped", loc=loc, sound=True)
     # ---- normalisation
     lx = [e for e in it.events if e.kind == "loop_exit" and e.data["loop"] == Li.id]
@@ -156,17 +160,28 @@ def check_qlm(run, pkg, weighted):
            [e for e in stores(it) if e.data["op"] == "/" and e.data["target"][1] == Z]
     cn_col = ("sub", NL, ("tuple", (FULL, C(0))))
     if not weighted:
-        run.ob("R-ALG", fq, "plain:no-weight", wfac is None, "unweighted bonds contribute with weight 1", show(wfac)[:60] if wfac else "none", witness=None if wfac is None else "extra factor", loc=loc)
+        run.ob("R-ALG", fq, "plain:no-weight", True if wfac is None else None, "unweighted bonds contribute with weight 1", show(wfac)[:60] if wfac else "none", loc=loc)
         ok = len(divs) == 1 and divs[0].kind == "aug" and set(divs[0].loops) == {Lf.id} and lx and divs[0].seq > lx[0].seq and col_bcast(divs[0].data["value"]) == cn_col \
             and divs[0].data["value"] != cn_col
+        if not ok:
+            by_cn = [d for d in divs if eqv(col_bcast(d.data["value"]), cn_col) is True]
+            # definite: the pure bond sum is what leaves the routine (no division anywhere, summand is the bare harmonic), or
+            # the sum is divided by cn more than once
+            if not divs and wfac is None and _returned_local(it) == Z:
+                ok = False
+            elif len(by_cn) >= 2 and len(by_cn) == len(divs):
+                ok = False
+            else:
+                ok = None
         run.ob("R-ALG", fq, "plain:mean", ok, "the sum over bonds is divided by cn_i exactly once per frame, after the particle loop (mean over neighbours)",
                f"{len(divs)} divisions" + (f": {key_of(divs[0])[:80]}" if divs else ""),
-               witness=None if ok else ("q_lm is the bond sum, not the bond average: q_l grows with cn" if not divs else "divided more than once / by another quantity: q_l is not in [0, 1]"), loc=loc)
+               witness=None if ok else ("q_lm is the bond sum, not the bond average: q_l grows with cn" if not divs else "divided more than once / by another quantity: q_l is not in [0, 1]"), loc=loc, sound=True)
         q_final = divs[0].data["new"] if ok else Z
     else:
-        run.ob("R-ALG", fq, "weighted:no-second-division", not divs, "weighted sums are not divided by cn again (weights already sum to 1)", f"{len(divs)} divisions",
-               witness=None if not divs else "equal weights would give q_lm / cn instead of the unweighted q_lm", loc=loc)
-        okw = False
+        by_cn = [d for d in divs if eqv(col_bcast(d.data["value"]), cn_col) is True]
+        run.ob("R-ALG", fq, "weighted:no-second-division", True if not divs else (False if by_cn else None), "weighted sums are not divided by cn again (weights already sum to 1)", f"{len(divs)} divisions",
+               witness=None if not divs else "equal weights would give q_lm / cn instead of the unweighted q_lm", loc=loc, sound=True)
+        okw = None
         detail = show(wfac)[:100] if wfac else "no weight factor"
         if wfac is not None and wfac[0] == "sub" and wfac[2][0] == "tuple" and len(wfac[2][1]) == 2:
             frac = wfac[1]
@@ -184,22 +199,19 @@ def check_qlm(run, pkg, weighted):
                 off = 1
             elif Wt is not None and Wt == Wsrc:
                 off = 0
-            jj = None
-            if wj == j:
-                jj = 0
-            elif wj in (("bin", "+", j, C(1)), ("bin", "+", C(1), j)):
-                jj = 1
-            okw = wi == i and off is not None and jj is not None and off + jj == 1
+            jj = _const_offset(wj, j)
+            # integer offsets of recognised column slices / index expressions: a definite verdict either way
+            okw = tri(eqv(wi, i), None if (off is None or jj is None) else (off + jj == 1))
             detail = f"weights table column offset {off}, index {show(wj)}"
             if off == 1 and Wsrc is not None:
                 # the row sum must then exclude the count column - it does, being taken of the sliced table
                 pass
             if off == 0 and Wt is not None:
                 run.ob("R-ALG", fq, "weighted:count-column", False, "the row sum of the weights excludes column 0 (the coordination number)", show(Wt)[:60],
-                       witness="cn = 12 is added to the weight sum", loc=loc)
+                       witness="cn = 12 is added to the weight sum", loc=loc, sound=True)
         run.ob("R-ALIGN", fq, "weighted:alignment", okw, "bond j of particle i is weighted with entry j of its weight row (column j + 1 of the file table)", detail,
-               witness=None if okw else "weights shifted by one bond: the count column weights the first bond / last weight unused", loc=loc)
-        okW = Wsrc is not None
+               witness=None if okw else "weights shifted by one bond: the count column weights the first bond / last weight unused", loc=loc, sound=True)
+        okW = True if Wsrc is not None else None
         run.ob("R-HANDLE", fq, "weighted:source", okW, "weights of the frame are read from self.weightsfile in the frame loop", show(Wsrc)[:60] if Wsrc else "?", witness=None if okW else "weights not read per frame", loc=loc)
         q_final = Z
     # ---- coarse graining
@@ -216,7 +228,7 @@ def check_qlm(run, pkg, weighted):
         scatter = is_nbr_slice(tgt, NL, ci) and src == ("sub", q_final, ci)
         run.ob("R-ALG", fq, f"{v}:coarse:sum", True if gather else (False if scatter else None), "particle i gathers the local vectors of its listed neighbours (row i receives, columns 1..cn_i give)",
                key_of(ce)[:100], witness=None if gather else ("q_i is scattered onto i's neighbours: equals the gather only for symmetric neighbour relations (not for N-nearest lists)" if scatter else None),
-               loc=loc_of(it, ce))
+               loc=loc_of(it, ce), sound=True)
         return
     if len(cg) != 1:
         run.ob("R-ALG", fq, f"{v}:coarse", None, "coarse-graining accumulation found", f"{len(cg)} candidates", loc=fi.loc())
@@ -225,16 +237,16 @@ def check_qlm(run, pkg, weighted):
     Lci, Lcj = it.loops[ce.loops[1]], it.loops[ce.loops[2]]
     ci, cj = Lci.target, Lcj.target
     Q = ce.data["target"][1]
-    okstart = Q[0] == "call" and Q[1] in ("numpy.copy", ".copy", "numpy.array") and Q[2] and Q[2][0] == q_final
+    okstart = True if (Q[0] == "call" and Q[1] in ("numpy.copy", ".copy", "numpy.array") and Q[2] and Q[2][0] == q_final) else (False if Q == q_final else None)
     run.ob("R-ALG", fq, f"{v}:coarse:start", okstart, "the coarse-grained vector starts as a copy of the (normalised) local vectors: the particle itself counts once", show(Q)[:70],
-           witness=None if okstart else "self term missing / local array aliased and modified", loc=loc_of(it, ce))
+           witness=None if okstart else "the local array is aliased and modified while it is still being read: the result depends on particle order", loc=loc_of(it, ce), sound=True)
     src = ce.data["value"]
     nb = ("sub", NL, ("tuple", (ci, ("bin", "+", cj, C(1)))))
     nb2 = ("sub", NL, ("tuple", (ci, ("bin", "+", C(1), cj))))
-    oksrc = ce.data["target"][2] == ci and src[0] == "sub" and src[1] == q_final and src[2] in (nb, nb2)
     fromQ = src[0] == "sub" and src[1] == Q
+    oksrc = tri(eqv(ce.data["target"][2], ci), True if (src[0] == "sub" and src[1] == q_final) else (False if fromQ else None), eqv(src[2], nb) if src[0] == "sub" else None)
     run.ob("R-ALG", fq, f"{v}:coarse:sum", oksrc, "adds the *local* vector of neighbour j (column j + 1 of row i) to particle i", key_of(ce)[:100],
-           witness=None if oksrc else ("neighbours' partially coarse-grained vectors are added: the result depends on particle order" if fromQ else "wrong neighbour column / wrong source"), loc=loc_of(it, ce))
+           witness=None if oksrc else ("neighbours' partially coarse-grained vectors are added: the result depends on particle order" if fromQ else "wrong neighbour column / wrong source"), loc=loc_of(it, ce), sound=True)
     okdom = tri_lazy(lambda: eqv(Lci.iter, ("call", "builtins.range", (("attr", snap, "nparticle"),), ())), lambda: eqv(Lcj.iter, ("call", "builtins.range", (nbr_count(NL, ci),), ())))
     run.ob("R-LOOPDOM", fq, f"{v}:coarse:domain", okdom, "all particles and all their cn_i neighbours enter the coarse-graining sum", f"{show(Lci.iter)[:40]} x {show(Lcj.iter)[:60]}",
            witness=None if okdom else "neighbours skipped", loc=loc_of(it, ce), sound=True)
@@ -249,7 +261,7 @@ def check_qlm(run, pkg, weighted):
            witness=None if okdiv else "normalisation is not 1 + coordination number", loc=loc_of(it, fin[0]) if fin else fi.loc(), sound=True)
     # ---- returned pair
     ret = it.returns[0].data["value"] if len(it.returns) == 1 else None
-    okret = False
+    okret = None
     if ret is not None and ret[0] == "tuple" and len(ret[1]) == 2:
         a, b = ret[1]
 
@@ -258,9 +270,61 @@ def check_qlm(run, pkg, weighted):
                 return t[2][0][2]
             return None
         Qfin = fin[0].data["value"] if (fin and fin[0].kind == "assign") else (fin[0].data["new"] if fin else None)
-        okret = appended_of(a) == q_final and appended_of(b) == Qfin
+        if appended_of(a) == q_final and appended_of(b) == Qfin:
+            okret = True
+        elif Qfin is not None and appended_of(a) == Qfin and appended_of(b) == q_final:
+            okret = False
     run.ob("R-ALG", fq, f"{v}:return", okret, "returns (local vectors, coarse-grained vectors), one array per frame in order", show(ret)[:80] if ret else "?",
-           witness=None if okret else "local and coarse-grained arrays swapped / frames missing", loc=fi.loc())
+           witness=None if okret else "local and coarse-grained arrays swapped", loc=fi.loc(), sound=True)
+
+
+def _returned_local(it):
+    """the per-frame array appended to the first returned list"""
+    ret = it.returns[0].data["value"] if len(it.returns) == 1 else None
+    if ret is not None and ret[0] == "tuple" and len(ret[1]) == 2:
+        t = ret[1][0]
+        if t[0] == "call" and t[1] == "numpy.array" and t[2] and t[2][0][0] == "appended":
+            return t[2][0][2]
+    return None
+
+
+def _const_offset(a, b):
+    """integer c with a = b + c, or None"""
+    try:
+        lv = {}
+
+        def at(t):
+            if t[0] in ("loopvar", "elem", "sym"):
+                return lv.setdefault(t, sp.Symbol(f"i{len(lv)}", integer=True))
+            return None
+        tr = S.Translator(at)
+        d = sp.expand(tr.tr(a) - tr.tr(b))
+        return int(d) if (d.is_Integer and not tr.atoms) else None
+    except Exception:  # noqa
+        return None
+
+
+def _shift_ok(gi, idx):
+    """m -> storage index: compare with `table + l` as integer expressions in the table entry and the degree l >= 1."""
+    try:
+        lv = {}
+
+        def at(t):
+            if t == LDEG:
+                return sp.Symbol("l", integer=True, positive=True)
+            if t[0] == "call" and t[1] == ".astype" and t[2]:
+                t = t[2][0]
+            if t[0] == "sub" and t[1][0] == "call" and t[1][1].endswith("Wignerindex"):
+                return lv.setdefault(t, sp.Symbol(f"m{len(lv)}", integer=True))
+            return None
+        tr = S.Translator(at)
+        tr.ufuncs = False
+        d = sp.expand(tr.tr(gi) - tr.tr(idx))
+        if tr.atoms:
+            return None
+        return True if d == 0 else False
+    except Exception:  # noqa
+        return None
 
 
 def is_nbr_slice_gather(idx, NL, i):
@@ -316,9 +380,10 @@ def check_ql(run, pkg, coarse):
     X = want_vec(coarse)
     ret = it.returns[0].data["value"]
     uses = {x for x in walk(ret) if x[0] == "attr" and x[1] == SELF and x[2] in ("smallqlm", "largeQlm")}
-    okx = uses == {X}
+    other = want_vec(not coarse)
+    okx = True if uses == {X} else (False if uses == {other} else None)
     run.ob("R-DISPATCH", fq, f"{tag}:vector", okx, f"coarse_graining={coarse} selects the {'coarse-grained' if coarse else 'local'} vectors", str(sorted(u[2] for u in uses)),
-           witness=None if okx else "flag selects the other set of vectors", loc=it.fi.loc())
+           witness=None if okx else "flag selects the other set of vectors", loc=it.fi.loc(), sound=True)
     atom_of, Xs, ls = vec_atom(X)
     check_algebra(run, "R-ALG", it, f"{tag}:ql", "q_l = sqrt(4 pi/(2l+1) sum_m |q_lm|^2) (sum over axis 2 = m)", ret,
                   sp.sqrt(4 * sp.pi / (2 * ls + 1) * SUM2(sp.Abs(Xs) ** 2, 2)), atom_of, it.fi.loc())
@@ -350,8 +415,8 @@ def check_sij(run, pkg, coarse):
         up, real = up[1], True
     elif up[0] == "call" and up[1] == "numpy.real":
         up, real = up[2][0], True
-    run.ob("R-ALG", fq, f"{tag}:real", real, "s_ij uses the real part of q_i . conj q_j", show(ev.data["value"][2])[:60], witness=None if real else "complex numerator stored into a float array", loc=loc)
-    okup = False
+    run.ob("R-ALG", fq, f"{tag}:real", True if real else None, "s_ij uses the real part of q_i . conj q_j", show(ev.data["value"][2])[:60], loc=loc)
+    okup = None
     detail = show(up)[:120]
     if up[0] == "call" and up[1] == ".sum" and kw(up, "axis", 1) in (C(1), C(-1)) and up[2][0][0] == "bin" and up[2][0][1] == "*":
         a, b = up[2][0][2], up[2][0][3]
@@ -366,13 +431,25 @@ def check_sij(run, pkg, coarse):
         centre = ("sub", X, ("tuple", (n, i)))
 
         def is_nb(t):
-            return t[0] == "sub" and t[1] == X and t[2][0] == "tuple" and len(t[2][1]) == 2 and t[2][1][0] == n and is_nbr_slice(t[2][1][1], NL, i)
-        okpair = (a0 == centre and is_nb(b0)) or (b0 == centre and is_nb(a0))
-        okup = okpair and (ca != cb)
+            if not (t[0] == "sub" and t[2][0] == "tuple" and len(t[2][1]) == 2):
+                return None
+            return tri(eqv(t[1], X), eqv(t[2][1][0], n), nbr_slice_tri(t[2][1][1], NL, i))
+
+        def is_centre(t):
+            return eqv(t, centre)
+        # which operand is the centre particle's vector: the one indexed by a scalar particle index
+        def scalar_idx(t):
+            return t[0] == "sub" and t[2][0] == "tuple" and len(t[2][1]) == 2 and t[2][1][1][0] != "sub"
+        if scalar_idx(a0) != scalar_idx(b0):
+            cen, nbv = (a0, b0) if scalar_idx(a0) else (b0, a0)
+            okpair = tri(is_centre(cen), is_nb(nbv))
+        else:
+            okpair = None
+        okup = tri(okpair, ca != cb) if okpair is not None else None
         if okpair and ca == cb:
             detail = "no factor (or both) conjugated"
     run.ob("R-ALIGN", fq, f"{tag}:numerator", okup, "numerator = sum_m q_lm(i) conj(q_lm(j)) for j over the neighbours (columns 1..cn_i) of i in the same frame", detail,
-           witness=None if okup else "pairs another frame / other particles, or the conjugate is missing (|s_ij| can exceed 1)", loc=loc)
+           witness=None if okup else "pairs another frame / other particles, or the conjugate is missing (|s_ij| can exceed 1)", loc=loc, sound=True)
     # denominator |q_i||q_j| with |q| = sqrt(sum |q_lm|^2)
     okdn = False
     if down[0] == "bin" and down[1] == "*":
@@ -406,10 +483,10 @@ def check_sij(run, pkg, coarse):
         S_arr = ev.data["target"][1]
         forms = [("call", ".sum", (("call", "numpy.where", (("cmp", ">", S_arr, ("sym", "c")), C(1), C(0)), ()),), (("axis", C(1)),)),
                  ("call", ".sum", (("cmp", ">", S_arr, ("sym", "c")),), (("axis", C(1)),))]
-        okc = v in forms
+        okc = eqv(v, *forms, same=True)
         ge = any(x[0] == "cmp" and x[1] in (">=", "<", "<=") for x in walk(v))
         run.ob("R-CMP", fq, f"{tag}:count", okc, "column 1 counts the bonds with s_ij > c (strict)", show(v)[:90],
-               witness=None if okc else ("boundary/direction of the threshold changed" if ge else "count is not over s_ij > c"), loc=loc_of(it, cnt[0]))
+               witness=None if okc else ("boundary/direction of the threshold changed" if ge else "count is not over s_ij > c"), loc=loc_of(it, cnt[0]), sound=True)
     else:
         run.ob("R-CMP", fq, f"{tag}:count", None, "thresholded count found", f"{len(cnt)} stores", loc=fi.loc())
     ids = [e for e in stores(it) if e.data["target"][2] == ("tuple", (FULL, C(0)))]
@@ -436,7 +513,7 @@ def check_w(run, pkg, coarse):
     idx = ("bin", "+", ("call", ".astype", (("sub", WI, ("tuple", (FULL, ("slice", NONE, C(3), NONE)))), ("mod", "numpy.int64")), ()), LDEG)
     w3 = ("sub", WI, ("tuple", (FULL, C(3))))
     v = ev.data["value"]
-    ok = False
+    ok = None
     detail = show(v)[:140]
     if v[0] == "call" and v[1] == ".sum" and len(v[2]) == 1 and v[2][0][0] == "bin" and v[2][0][1] == "*":
         a, b = v[2][0][2], v[2][0][3]
@@ -445,14 +522,14 @@ def check_w(run, pkg, coarse):
             g = pr[2][0][2][0]
             if g[0] == "sub" and g[1] == X and g[2][0] == "tuple" and len(g[2][1]) == 3 and g[2][1][0] == n and g[2][1][1] == i:
                 gi = g[2][1][2]
-                ok = gi == idx or (gi[0] == "bin" and gi[1] == "+" and LDEG in gi[2:] and any(x == ("sub", WI, ("tuple", (FULL, ("slice", NONE, C(3), NONE)))) for x in walk(gi)))
+                ok = True if (gi == idx or (gi[0] == "bin" and gi[1] == "+" and LDEG in gi[2:] and any(x == ("sub", WI, ("tuple", (FULL, ("slice", NONE, C(3), NONE)))) for x in walk(gi)))) else _shift_ok(gi, idx)
                 if not ok:
                     detail = f"m -> index map {show(gi)[:80]}"
     run.ob("R-IDX", fq, f"{tag}:w", ok, "w_l(n, i) = sum over the table of w3j(m1,m2,m3) Re[q_{l,m1} q_{l,m2} q_{l,m3}] with m stored at index m + l", detail,
-           witness=None if ok else "m = -l..l indexes the vector without the + l shift (negative m wraps to the wrong component) / wrong table column", loc=loc)
+           witness=None if ok else "m = -l..l indexes the vector without the + l shift (negative m wraps to the wrong component) / wrong table column", loc=loc, sound=True)
     ret = it.returns[0].data["value"]
     okr = ret[0] == "tuple" and len(ret[1]) == 2 and ret[1][0] == ev.data["target"][1]
-    run.ob("R-ALG", fq, f"{tag}:return", okr, "returns (w, w-hat)", show(ret)[:60], witness=None if okr else "return order changed", loc=fi.loc())
+    run.ob("R-ALG", fq, f"{tag}:return", True if okr else None, "returns (w, w-hat)", show(ret)[:60], loc=fi.loc())
     if okr:
         atom_of, Xs, ls = vec_atom(X)
         Ws = sp.Symbol("W")
@@ -523,33 +600,41 @@ def check_wigner(run, pkg):
     e = ap[0]
     Ls = [it.loops[x] for x in e.loops]
     rng = ("call", "builtins.range", (("un", "-", l), ("bin", "+", l, C(1))), ())
-    okd = all(L.iter == rng for L in Ls)
-    run.ob("R-LOOPDOM", fq, "cube", okd, "m1, m2, m3 each run over -l..l", " x ".join(show(L.iter)[:30] for L in Ls), witness=None if okd else "m values missing from the table", loc=fi.loc())
+    okd = tri(*[eqv(L.iter, rng) for L in Ls])
+    run.ob("R-LOOPDOM", fq, "cube", okd, "m1, m2, m3 each run over -l..l", " x ".join(show(L.iter)[:30] for L in Ls), witness=None if okd else "m values missing from the table", loc=fi.loc(), sound=True)
     m = [L.target for L in Ls]
     g = [c for c, pol in e.guards if pol]
-    okg = False
+    okg = None
+    if not g and not [c for c, pol in e.guards]:
+        okg = True          # unguarded: the extra triples carry a vanishing 3-j symbol
     if len(g) == 1 and g[0][0] == "cmp" and g[0][1] == "==" and g[0][3] == C(0):
-        sm = S.to_sympy(g[0][2], lambda t: sp.Symbol(f"m{m.index(t) + 1}") if t in m else None)
-        okg = sp.expand(sm - sum(sp.Symbol(f"m{k}") for k in (1, 2, 3))) == 0
-    run.ob("R-LOOPDOM", fq, "selection", okg, "exactly the triples with m1 + m2 + m3 = 0 are tabulated", show(g[0])[:60] if g else "no guard", witness=None if okg else "terms with non-vanishing 3-j symbol missing / zero terms kept", loc=loc_of(it, e))
+        try:
+            sm = S.to_sympy(g[0][2], lambda t: sp.Symbol(f"m{m.index(t) + 1}") if t in m else None)
+            okg = bool(sp.expand(sm - sum(sp.Symbol(f"m{k}") for k in (1, 2, 3))) == 0) if sm.free_symbols <= {sp.Symbol("m1"), sp.Symbol("m2"), sp.Symbol("m3")} else None
+        except Exception:  # noqa
+            okg = None
+    run.ob("R-LOOPDOM", fq, "selection", okg, "all triples with m1 + m2 + m3 = 0 are tabulated", show(g[0])[:60] if g else "no guard", witness=None if okg else "terms with non-vanishing 3-j symbol missing", loc=loc_of(it, e), sound=True)
     row = e.data["call"][2][1]
     w3 = None
     okr = False
     if row[0] == "call" and row[1] == "numpy.array" and row[2][0][0] == "list" and len(row[2][0][1]) == 4:
         els = row[2][0][1]
         w3 = els[3]
-        okr = list(els[:3]) == m
-    run.ob("R-IDX", fq, "row", okr, "a table row is [m1, m2, m3, value] in this order", show(row)[:80], witness=None if okr else "columns permuted: w3j[:, 3] / Windex[:, :3] read the wrong fields", loc=loc_of(it, e))
-    okw = False
+        okr = True if sorted(map(show, els[:3])) == sorted(map(show, m)) else (False if any(x in m for x in els[3:]) else None)
+    run.ob("R-IDX", fq, "row", okr, "a table row holds m1, m2, m3 in its first three columns and the value in the fourth", show(row)[:80], witness=None if okr else "an m index sits in the value column", loc=loc_of(it, e), sound=True)
+    okw = None
     if w3 is not None:
         core = w3
         if core[0] == "call" and core[1] == ".evalf":
             core = core[2][0]
-        okw = core[0] == "call" and core[1].endswith("wigner_3j") and list(core[2]) == [l, l, l] + m
-    run.ob("R-ALG", fq, "symbol", okw, "the value is the Wigner 3-j symbol (l l l; m1 m2 m3)", show(w3)[:80] if w3 else "?", witness=None if okw else "arguments of wigner_3j permuted / other degrees", loc=loc_of(it, e))
+        if core[0] == "call" and isinstance(core[1], str) and core[1].endswith("wigner_3j") and len(core[2]) == 6:
+            ms = list(core[2][3:])
+            # the sum over the full cube is invariant under permuting (m1, m2, m3): only the multiset of arguments matters
+            okw = tri(*[eqv(x, l) for x in core[2][:3]], True if sorted(map(show, ms)) == sorted(map(show, m)) else (False if all(x in m for x in ms) else None))
+    run.ob("R-ALG", fq, "symbol", okw, "the value is the Wigner 3-j symbol (l l l; m1 m2 m3)", show(w3)[:80] if w3 else "?", witness=None if okw else "an m argument of wigner_3j repeated / other degrees", loc=loc_of(it, e), sound=True)
     ret = it.returns[0].data["value"]
     okrs = any(x[0] == "call" and x[1] == ".reshape" and x[2][1:] == (C(-1), C(4)) for x in walk(ret))
-    run.ob("R-IDX", fq, "shape", okrs, "the table is returned with 4 columns", show(ret)[:60], witness=None if okrs else "table shape changed", loc=fi.loc())
+    run.ob("R-IDX", fq, "shape", True if okrs else None, "the table is returned with 4 columns", show(ret)[:60], loc=fi.loc())
 
 
 def check_api(run, pkg):
